@@ -14,6 +14,7 @@ import SodiumModel.Driver.C05
 import SodiumModel.Driver.C07spec
 import SodiumModel.Driver.C13
 import SodiumModel.Driver.C19
+import SodiumModel.Driver.C12
 open Sodium.Driver
 
 def handlers : List (String → List String → Option String) := [
@@ -29,6 +30,7 @@ def handlers : List (String → List String → Option String) := [
   Sodium.Driver.C10.handle,
   Sodium.Driver.C13.handle,
   Sodium.Driver.C19.handle,
+  Sodium.Driver.C12.handle,
   Sodium.Driver.C07spec.handle,
   Sodium.Driver.C05.handle
 ]
